@@ -7,8 +7,8 @@ PROP = "C19"
 # profile -> (flavor, share of the case budget).  htable runs on the deterministic flavor (hash seed
 # 0) so that a failing case replays bit for bit; the others do not depend on it.  slist draws its
 # coin flips from a per-case seeded stream in either flavor (see ds_slist.h).
-PROFILES = [("array", "asan", 1.0), ("slist", "asan", 1.0), ("llist", "asan", 1.0),
-            ("htable", "asan-det", 0.6), ("buf", "asan", 1.0), ("record", "asan", 0.8)]
+PROFILES = [("array", "asan", 1.0), ("slist", "asan", 0.8), ("llist", "asan", 1.0),
+            ("htable", "asan-det", 0.5), ("buf", "asan", 1.0), ("record", "asan", 0.7)]
 RULE = ("each case = one seeded operation sequence on one container compared step by step with a "
         "reference model; non-trivial = >=8 operations and >=1 removal; distinct = distinct "
         "(container, operation-kind trigram) seen in non-trivial cases")
@@ -20,7 +20,7 @@ def own(key):
 
 def run(tier, seed, scale=1.0):
     t0 = time.time()
-    # quick: 162 k sequences, ~280 CPU-s (about 20-40 s wall on 16 shared cores); thorough: 5.4 M, ~10 min
+    # quick: 150 k sequences, ~250 CPU-s (20-40 s wall on 16 shared cores); thorough: 5 M, ~10 min
     per = int((30000 if tier == "quick" else 1000000) * scale)
     res = vdriver.Result()
     for prof, flavor, share in PROFILES:
